@@ -54,6 +54,7 @@ TokChars(t) ==
     [] t = "%252F" -> <<"%", "2", "5", "2", "F">>
     [] t = "%25"   -> <<"%", "2", "5">>
     [] t = "%"     -> <<"%">>
+    [] OTHER       -> <<t>>          \* trace-only tokens (ExtraTokens of StoreNamesTrace): one opaque ordinary character
 
 RECURSIVE Flat(_)
 Flat(ts) == IF ts = <<>> THEN <<>> ELSE TokChars(Head(ts)) \o Flat(Tail(ts))
